@@ -41,12 +41,14 @@ ScriptPDP == << <<"put", "a1">>, <<"put", "a2">>, <<"del", "a1">>, <<"put", "a3"
 \* three updates of one subject overlapping, pushes and deletes mixed
 ScriptMix1 == << <<"put", "a3">>, <<"put", "a1">>, <<"put", "a2">>, <<"del", "a3">> >>
 ScriptMix2 == << <<"put", "a1">>, <<"put", "a2">>, <<"del", "a1">>, <<"del", "a2">>, <<"put", "a3">> >>
+\* one long-lived client: pushes of manifests without a subject between referrer updates
+ScriptPlain == << <<"put", "a1">>, <<"plain", "n1">>, <<"put", "a2">>, <<"plain", "n1">>, <<"del", "a1">> >>
 \* pushes only (the lock of referrerPut), re-push of the same artifact
 ScriptPP == << <<"put", "a1">>, <<"put", "a2">>, <<"put", "a1">> >>
 ScriptPPP == << <<"put", "a1">>, <<"put", "a2">>, <<"put", "a3">> >>
 
 SubjSeq == <<"s1", "s2", "a1">>
-FilterSeq == <<"none", "t1", "t2", "x", "y", "k", "sa", "sd", "none">>
+FilterSeq == <<"none", "t1", "t2", "x", "y", "k", "sa", "sd", "t1x", "t1y", "t2x", "t1p", "none">>
 ObsSeq == [i \in 1..(Len(SubjSeq) * Len(FilterSeq)) |->
              <<SubjSeq[((i - 1) \div Len(FilterSeq)) + 1], FilterSeq[((i - 1) % Len(FilterSeq)) + 1]>>]
 
